@@ -297,6 +297,16 @@ func writeKeyForms(dir string, curve elliptic.Curve, cn string) (map[string]stri
 		forms["encrypted"] = filepath.Join(dir, "key-enc.pem")
 		pemFile(forms["encrypted"], "ENCRYPTED PRIVATE KEY", enc)
 	}
+	// what `openssl ecparam -genkey` writes: an EC PARAMETERS block (the curve OID) before the key, and
+	// what `openssl pkcs12 -nodes` writes: explanatory text before the block
+	oid := []byte{0x06, 0x08, 0x2a, 0x86, 0x48, 0xce, 0x3d, 0x03, 0x01, 0x07}
+	if curve == elliptic.P384() {
+		oid = []byte{0x06, 0x05, 0x2b, 0x81, 0x04, 0x00, 0x22}
+	}
+	forms["params"] = filepath.Join(dir, "key-params.pem")
+	os.WriteFile(forms["params"], append(pem.EncodeToMemory(&pem.Block{Type: "EC PARAMETERS", Bytes: oid}), pem.EncodeToMemory(&pem.Block{Type: "EC PRIVATE KEY", Bytes: sec1})...), 0600)
+	forms["bagtext"] = filepath.Join(dir, "key-bag.pem")
+	os.WriteFile(forms["bagtext"], append([]byte("Bag Attributes\n    friendlyName: signing key\nKey Attributes: <No Attributes>\n"), append(pem.EncodeToMemory(&pem.Block{Type: "PRIVATE KEY", Bytes: p8}), '\n', '\n')...), 0600)
 	pemFile(filepath.Join(dir, "cert.pem"), "CERTIFICATE", k.der)
 	os.WriteFile(filepath.Join(dir, "ocsp.der"), []byte("dummy-ocsp"), 0600)
 	return forms, k
@@ -438,6 +448,18 @@ func opCliChain(a []Sx) Sx {
 		if !strings.Contains(so.String(), strings.TrimSpace(ido.String())) {
 			return fail("web bundle id mismatch", so.String()+ido.String())
 		}
+		// the same ID from the public key alone
+		if pkix, err := x509.MarshalPKIXPublicKey(edPriv.Public()); err == nil {
+			pubKey := filepath.Join(d, "ed-pub.pem")
+			pemFile(pubKey, "PUBLIC KEY", pkix)
+			var pdo bytes.Buffer
+			if se, err := runTool(env, &pdo, "sign-bundle", "dump-id", "-publicKey", pubKey); err != nil {
+				return fail("dump-id -publicKey", se)
+			}
+			if strings.TrimSpace(pdo.String()) != strings.TrimSpace(ido.String()) {
+				return fail("web bundle id from the public key differs", pdo.String()+ido.String())
+			}
+		}
 		return L(Sym("ok"))
 	}
 	return L(Sym("badkind"))
@@ -498,7 +520,7 @@ func genC20(r *Rng, tier string) []Case {
 		if i%4 == 0 {
 			// sign the same kind of tree with both sub-commands
 			simple := []Sx{L(B([]byte("")), Zi(1), B(nil)), L(B([]byte("index.html")), Zi(0), B([]byte("<html>hi</html>"))), L(B([]byte("a b#c.txt")), Zi(0), B(r.Bytes(100))), L(B([]byte("sub")), Zi(1), B(nil)), L(B([]byte("sub/x?.js")), Zi(0), B(r.Bytes(5000)))}
-			cs = append(cs, Case{"cli_chain", []Sx{Sym("signbundle"), Sym(ver), L(simple...), Sym([]string{"sec1", "pkcs8", "encrypted"}[r.Intn(3)]), Zi(int64([]int{1, 16, 4096, 16384}[r.Intn(4)])), Zi(int64(r.Intn(2))), Zi(int64(r.Intn(4)))}})
+			cs = append(cs, Case{"cli_chain", []Sx{Sym("signbundle"), Sym(ver), L(simple...), Sym([]string{"sec1", "pkcs8", "encrypted", "params", "bagtext"}[r.Intn(5)]), Zi(int64([]int{1, 16, 4096, 16384}[r.Intn(4)])), Zi(int64(r.Intn(2))), Zi(int64(r.Intn(4)))}})
 		}
 	}
 	// a b1 bundle with a manifest section, signed and dumped
@@ -617,7 +639,7 @@ func genC20(r *Rng, tier string) []Case {
 	}
 	for i := 0; i < m; i++ {
 		cs = append(cs, Case{"cli_chain", []Sx{Sym("certurl"), Zi(int64(i)), Sym("1b3"), Sym("sec1"), Zi(16), B(nil), Zi(int64(r.Intn(3)))}})
-		cs = append(cs, Case{"cli_chain", []Sx{Sym("sxg"), Zi(int64(i)), Sym([]string{"1b1", "1b2", "1b3"}[i%3]), Sym([]string{"sec1", "pkcs8", "encrypted"}[r.Intn(3)]),
+		cs = append(cs, Case{"cli_chain", []Sx{Sym("sxg"), Zi(int64(i)), Sym([]string{"1b1", "1b2", "1b3"}[i%3]), Sym([]string{"sec1", "pkcs8", "encrypted", "params", "bagtext"}[r.Intn(5)]),
 			Zi(int64([]int{1, 16, 100, 4096, 16384}[r.Intn(5)])), B(r.Bytes([]int{0, 1, 16, 5000}[r.Intn(4)])), Zi(0), Zi(int64(r.Intn(2)))}})
 	}
 	return cs
